@@ -139,10 +139,12 @@ class Cli:
 
     @property
     def version_string(self):
+        # The command line is echoed inside a raw triple-quoted string: a triple quote in it would end the string early
+        command = " ".join(sys.argv).replace('"""', r'\"\"\"')
         return (
             'r"""\n'
             f'generated by json2python-models v{VERSION} at {datetime.now().ctime()}\n'
-            f'command: {" ".join(sys.argv)}\n'
+            f'command: {command}\n'
             '"""\n'
         )
 
